@@ -2,7 +2,7 @@
 # Runs every check's thorough tier once with the given seed (default 11); prints one line each.
 DIR=$(cd "$(dirname "$0")/.." && pwd)
 SEED=${1:-11}
-for ID in C17 C15 C20 C19 C10 C18 C03; do
+for ID in ${THOROUGH_ORDER:-C17 C15 C20 C19 C10 C18 C03}; do
   VERIF_SEED=$SEED "$DIR/check.sh" $ID thorough > "$DIR/.thorough-$ID-$SEED.log" 2>&1; rc=$?
   echo "$ID seed=$SEED exit=$rc $(grep 'goatsim: C' "$DIR/.thorough-$ID-$SEED.log" | tail -1)"
   grep -A1 "^VIOLATION\|INFRASTRUCTURE" "$DIR/.thorough-$ID-$SEED.log" | head -12
